@@ -21,6 +21,9 @@ class FnSpec:
         self.name = name
         self.property = None
         self.requires = []
+        self.ghost_requires = []
+        self.ghost_ensures = []
+        self.ghost_assigns = []
         self.ensures = []      # (label, expr)
         self.assigns = []
         self.frees = []
@@ -67,6 +70,7 @@ class UnitSpec:
         self.stub_fns = []
         self.cflags = []
         self.tv = None
+        self.native_differential = False
         parse(self, path)
 
 
@@ -135,6 +139,8 @@ def parse(u, path):
                 u.aliases.append((a.strip(), b.strip()))
             elif kw == 'tv':
                 u.tv = rest
+            elif kw == 'native-differential':
+                u.native_differential = rest in ('yes', 'true', 'on')
             elif kw in ('function', 'assume-contract', 'lemma'):
                 m = re.match(r'^(\S+)(?:\s+foreach\s+(\w+)=(.*))?$', rest)
                 if not m:
@@ -187,6 +193,13 @@ def parse(u, path):
             cur.ensures.append((m.group(1), m.group(2)))
         elif kw == 'assigns':
             cur.assigns.append(rest)
+        elif kw == 'ghost-requires':
+            cur.ghost_requires.append(rest)
+        elif kw == 'ghost-assigns':
+            cur.ghost_assigns.append(rest)
+        elif kw == 'ghost-ensures':
+            m = re.match(r'^\[?([A-Za-z0-9_.\-]+)\]?:\s*(.*)$', rest)
+            cur.ghost_ensures.append((m.group(1), m.group(2)))
         elif kw == 'entry':
             t, i = read_block(lines, i, rest)
             cur.entry.append(t)
@@ -261,6 +274,9 @@ def subst_fn(f, var, val):
     g.requires = [sub(x) for x in g.requires]
     g.ensures = [(sub(a), sub(b)) for a, b in g.ensures]
     g.assigns = [sub(x) for x in g.assigns]
+    g.ghost_requires = [sub(x) for x in g.ghost_requires]
+    g.ghost_assigns = [sub(x) for x in g.ghost_assigns]
+    g.ghost_ensures = [(sub(a), sub(b)) for a, b in g.ghost_ensures]
     g.entry = [sub(x) for x in g.entry]
     g.replace = [sub(x) for x in g.replace]
     g.unwind = [(sub(a), b) for a, b in g.unwind]
